@@ -700,7 +700,7 @@ def mon_c13(ex, info, col):
                             shape = "nested:part-follows-its-assembly-but-its-own-workplace-still-lists-it" if (follows and wpn not in anc_places) else "nested:part-does-not-report-where-its-assembly-is"
                         out.append(V("C13", "C13:workplace-lists-component-that-reports-another-place[%s]" % shape, ex,
                                      {"t": t, "phase": ph, "workplace": wpn, "component": cn, "component_says": comps[cn][1]}))
-                used = sum((info.comps[c].get("space") or 1.0) for c in _top_most(info, lst))
+                used = sum((1.0 if info.comps[c].get("space") is None else info.comps[c]["space"]) for c in _top_most(info, lst))
                 cap = info.wp[wpn].get("cap")
                 cap = 1.0 if cap is None else cap
                 if lst:
